@@ -1,6 +1,8 @@
 mod core;
 mod lexer;
 mod opgrid;
+mod order;
+mod universe;
 mod palette;
 mod props;
 mod report;
@@ -20,6 +22,11 @@ fn main() {
     let code = match id {
         "C01" | "C02" => props::c01::run(id, tier),
         "C03" => props::c03::run(tier),
+        "C08" => props::c08::run(tier),
+        "C09" => props::c09::run(tier),
+        "C10" => props::c10::run(tier),
+        "C15" => props::c15::run(tier),
+        "C20" => props::c20::run(tier),
         _ => {
             eprintln!("unknown property {id}");
             2
